@@ -19,7 +19,7 @@ CHECKS = {
    note=E1_NOTE + " Size attributed to a moved target = smallest report among in-sync holders (weakest sound reading)."),
  "C05": dict(engine="E1 stub-cycle", level="exploration", ref="DESIGN.md §5 C05",
    technique="runtime monitoring: hand-over predicate (README's 3 scrapes) over recorded posts and scripted scrape counts",
-   text="Directed sweep of (source count, destination count) in {0,1,2,3,4,10}^2 x destination health x load ordering for a pending move, moves begun by every relief threshold / process relief / scale-down, plus random cases rich in in-transfer copies, plus closed-loop runs on real sidecars in which every completed move is judged with the harness' own count of real scrapes per (shard, target) at the target farm (a third of them with a sidecar restart / lost update, a third with one pod that cannot build the job's HTTP client). Oracle: a move marks the source in_transfer and sends a normal copy to an in-sync destination in the same cycle; an in-transfer copy disappears from its source only when source and a normal destination copy both report >= 3 scrapes (constant taken from README, not from the code).",
+   text="Directed sweep of (source count, destination count) in {0,1,2,3,4,10}^2 x destination health x load ordering for a pending move, moves begun by every relief threshold / process relief / scale-down, plus random cases rich in in-transfer copies, plus closed-loop runs on real sidecars in which every completed move is judged with the harness' own count of real scrapes per (shard, target) at the target farm (a third of them with a sidecar restart / lost update, a third with one pod that cannot build the job's HTTP client). Oracle: a move marks the source in_transfer and sends a normal copy to an in-sync destination in the same cycle; an in-transfer copy disappears from its source only when source and a normal destination copy both report >= 3 scrapes (constant taken from README, not from the code). One closed-loop case in eight is directed: relief towards a rarely scraping destination whose sidecar restarts on its surviving volume 1-3 cycles after the moves began.",
    note=E1_NOTE + " The closed-loop cases use the E2 engine (real sidecars, simulated Prometheus)."),
  "C07": dict(engine="E1 stub-cycle", level="exploration", ref="DESIGN.md §5 C07",
    technique="runtime monitoring: every ChangeScale argument of a cycle judged against bounds / last-needed-shard / no-shrink rules; exhaustive enumeration of shard-kind tuples",
@@ -39,7 +39,7 @@ E3_NOTE = ("Trusted: the harness' in-memory / raw-TCP targets and its reading of
 CHECKS.update({
  "C09": dict(engine="E3 sidecar", level="fault_enumeration", ref="DESIGN.md §5 C09",
    technique="fault injection + state monitor: store write cut after every byte offset via RLIMIT_FSIZE in a child process, process killed inside the write via strace signal injection, SIGKILL of the real binary, repeated fresh Load() compared with previous/new assignment",
-   text="The fault space (pair of consecutive assignments x byte offset at which the store write stops) is finite and swept: thorough enumerates every offset for every ordered pair of 8 assignment shapes, quick every offset for four pairs and strided for the rest, plus the old-file-name fall-back path, plus a sweep in which the updating process is KILLED inside the store write (strace-injected SIGKILL, no clean-up code runs) followed by three restarts and an acknowledged follow-up update, a retry of the same update after a failed write (must then persist), 'wired' cases (every ordered pair of shapes acknowledged by a fully wired sidecar whose configuration knows only some of the assigned jobs, then restarts), every restart repeated with update callbacks that fail ('Prometheus not up yet': what is resumed must not depend on it), plus SIGKILLs of the real `kvass sidecar` binary mid-update followed by a restart of the binary. Oracle: the next start succeeds and resumes exactly the previous or the new assignment (deep JSON equality incl. idle-since), the new one if the update was acknowledged.",
+   text="The fault space (pair of consecutive assignments x byte offset at which the store write stops) is finite and swept: thorough enumerates every offset for every ordered pair of 8 assignment shapes, quick every offset for four pairs and strided for the rest, plus the old-file-name fall-back path, plus a sweep in which the updating process is KILLED inside the store write (strace-injected SIGKILL, no clean-up code runs) followed by three restarts and an acknowledged follow-up update, a retry of the same update after a failed write (must then persist), a check that the restarted sidecar REPORTS one status entry per resumed target in the target's state, 'wired' cases (every ordered pair of shapes acknowledged by a fully wired sidecar whose configuration knows only some of the assigned jobs, then restarts), every restart repeated with update callbacks that fail ('Prometheus not up yet': what is resumed must not depend on it), plus SIGKILLs of the real `kvass sidecar` binary mid-update followed by a restart of the binary. Oracle: the next start succeeds and resumes exactly the previous or the new assignment (deep JSON equality incl. idle-since), the new one if the update was acknowledged.",
    note=E3_NOTE + " A write cut by RLIMIT_FSIZE is taken to leave the disk as a kill / full disk at that byte would; fsync / power-loss semantics of the file system are out of scope."),
  "C10": dict(engine="E3 sidecar", level="exploration", ref="DESIGN.md §5 C10",
    technique="runtime monitoring against an executable reference model of (status map, idle-since) after every operation",
@@ -51,7 +51,7 @@ CHECKS.update({
    note=E3_NOTE),
  "C13": dict(engine="E3 sidecar", level="fault_enumeration", ref="DESIGN.md §5 C13",
    technique="fault injection at every stage and every body offset behind the real proxy; outcome monitor on the Prometheus side (status / aborted response) and on /targets/status/",
-   text="One fault per case, enumerated: connect error, five non-200 codes, stalls beyond the timeout before headers and mid body, administrative stop, administrative stop set or lifted while the real request is in flight (the attempt may count either way but consistently: complete 200 with the full body and health up, or a failed response and health down), a transfer beginning (normal -> in_transfer) while a scrape that ends differently from the previous one is in flight (status must show that scrape's outcome, counter 1), body breaking off at EVERY wire offset (identity and gzip, three error kinds incl. 'connection reset by peer'), multi-block bodies at block boundaries, and real TCP faults (short Content-Length, cut chunked body, RST), each seen through an instrumented writer and through a real net/http hop. Oracle: the Prometheus side sees non-200 or an aborted response, never a complete 200; health down with an error; counter +1; then recovery to up.",
+   text="One fault per case, enumerated: connect error, five non-200 codes, stalls beyond the timeout before headers and mid body, administrative stop, administrative stop set or lifted while the real request is in flight (the attempt may count either way but consistently: complete 200 with the full body and health up, or a failed response and health down), a transfer beginning (normal -> in_transfer) while a scrape that ends differently from the previous one is in flight (status must show that scrape's outcome, counter 1), a stalled target where the Prometheus-side client gives up before the proxy's own timeout fires (the attempt still failed), body breaking off at EVERY wire offset (identity and gzip, three error kinds incl. 'connection reset by peer'), multi-block bodies at block boundaries, and real TCP faults (short Content-Length, cut chunked body, RST), each seen through an instrumented writer and through a real net/http hop. Oracle: the Prometheus side sees non-200 or an aborted response, never a complete 200; health down with an error; counter +1; then recovery to up.",
    note=E3_NOTE + " A break after the whole content was delivered is also required to fail on the Prometheus side (Prometheus itself would fail such a scrape)."),
  "C14": dict(engine="E3 sidecar", level="exploration", ref="DESIGN.md §5 C14",
    technique="runtime monitoring against an arithmetic reference: payloads with per-sample relabel outcome known by construction; race detector on the statistics lock",
@@ -66,7 +66,7 @@ E4_NOTE = ("Trusted: the configuration / target-group generators (documented lim
 CHECKS.update({
  "C02": dict(engine="E4 config", level="exploration", ref="DESIGN.md §5 C02",
    technique="differential runtime monitoring: the real discovery -> sidecar API -> generated file -> Prometheus loader -> real proxy pipeline vs. the vendored Prometheus on the original config; observation point = request leaving JobInfo.Cli",
-   text="For generated configurations and target groups the set of (final target labels, scheme://host/path?sorted-query really requested by the proxy) obtained through the whole sharded pipeline - real TargetsDiscovery, JSON assignment to 1-3 real sidecars, generated file re-loaded with config.Load, scrape.TargetsFromGroup on its static entries, request through the real Proxy.ServeHTTP - must equal what scrape.TargetsFromGroup yields on the original configuration; the coordinator side is wired as cmd/kvass/coordinator.go does (scrape manager, explorer and discovery share one ConfigInfo): after the first comparison the explorer probes every active target (stub exporter) and the same groups are re-sent without a reload, then the configuration is reloaded with edited relabel programs / path / scheme on the same objects, explored and re-sent again (the reload also changes a configured param value, and on one sidecar the write of the generated file fails once during it) - the comparison is repeated after each of the four phases. A differential oracle with the production Prometheus code as reference is the strongest oracle available for 'equivalent to one plain Prometheus'.",
+   text="For generated configurations and target groups the set of (final target labels, scheme://host/path?sorted-query really requested by the proxy) obtained through the whole sharded pipeline - real TargetsDiscovery, JSON assignment to 1-3 real sidecars, generated file re-loaded with config.Load, scrape.TargetsFromGroup on its static entries, request through the real Proxy.ServeHTTP - must equal what scrape.TargetsFromGroup yields on the original configuration; the coordinator side is wired as cmd/kvass/coordinator.go does (scrape manager, explorer and discovery share one ConfigInfo): after the first comparison the explorer probes every active target (stub exporter) and the same groups are re-sent without a reload, then the configuration is reloaded with edited relabel programs / path / scheme on the same objects, explored and re-sent again (the reload also changes a configured param value, and on one sidecar the write of the generated file fails once during it) - the comparison is repeated after each of the four phases. Like the Prometheus discovery manager, the harness hands over the SAME group objects as long as a source is unchanged, and in a quarter of the cases lets two jobs with equal discovery sections share them. A differential oracle with the production Prometheus code as reference is the strongest oracle available for 'equivalent to one plain Prometheus'.",
    note=E4_NOTE),
  "C11": dict(engine="E4 config", level="exploration", ref="DESIGN.md §5 C11",
    technique="differential runtime monitoring: generated file re-loaded with the Prometheus loader and compared field-wise with the loaded original, reflective walk over all Secret values, byte scan for job secrets",
@@ -78,7 +78,7 @@ CHECKS.update({
    note=E4_NOTE),
  "C16": dict(engine="E4 config", level="exploration", ref="DESIGN.md §5 C16",
    technique="runtime monitoring: catalogue of single-setting edits (must change the hash) and re-renderings / external-label changes (must not), cross-process and through a sidecar's /runtimeinfo/",
-   text="For each generated configuration every applicable entry of a ~150-entry catalogue of single-setting edits must change the hash computed by the real ConfigManager, seven textual re-renderings and three external-label changes must not, the same bytes must hash identically whether loaded from a file in a nested directory (coordinator) or pushed as raw content (sidecar), in three fresh processes and inside a sidecar (as reported by /runtimeinfo/); a manager with an in-place rewriting reload callback (as cmd/kvass registers for its --inject options) must keep the content's hash through reload / stop reason set / repeated / cleared / reload, and so must the real `kvass sidecar --inject.kubernetes-sa-path=...` process (hash read from its /runtimeinfo/ after the same steps over HTTP); and with two overlapping pushes (the old content held inside the first reload callback while the new one is pushed) the reported hash must be that of the configuration the downstream callback was last given; eight managers reloading the same text concurrently must all compute the content's hash; configurations differing only in a password inside a URL (remote read/write url, proxy_url) must hash differently.",
+   text="For each generated configuration every applicable entry of a ~150-entry catalogue of single-setting edits must change the hash computed by the real ConfigManager, seven textual re-renderings and three external-label changes must not, the same bytes must hash identically whether loaded from a file in a nested directory (coordinator) or pushed as raw content (sidecar), in three fresh processes and inside a sidecar (as reported by /runtimeinfo/); a manager with an in-place rewriting reload callback (as cmd/kvass registers for its --inject options) must keep the content's hash through reload / stop reason set / repeated / cleared / reload, and so must the real `kvass sidecar --inject.kubernetes-sa-path=...` process (hash read from its /runtimeinfo/ after the same steps over HTTP); and with two overlapping pushes (the old content held inside the first reload callback while the new one is pushed) the reported hash must be that of the configuration the downstream callback was last given; eight managers reloading the same text concurrently must all compute the content's hash; configurations differing only in a password inside a URL (remote read/write url, proxy_url) must hash differently. Half of the cases carry a scalar with blanks beyond column 80; the real-sidecar sequence compares with the hash computed by a fresh process and pushes a second configuration version to a sidecar that has already rendered files.",
    note=E4_NOTE + " Pure list re-ordering is not asserted either way."),
 })
 
@@ -90,11 +90,11 @@ CHECKS.update({
    note="Trusted: the harness' feeding of the discovery channel (what the Prometheus discovery manager would send) and porcupine v1.3.0. Updates and reloads are issued by one writer: update-reload races are outside the property. Held = held on the observed histories; porcupine timeout = inconclusive."),
  "C18": dict(engine="E6 kubernetes fake", level="exploration", ref="DESIGN.md §5 C18",
    technique="runtime monitoring on a client-go fake clientset: returned shards and the recorded API actions / objects judged; exhaustive sweep of the bounded parameter grid",
-   text="Every combination of current and requested replica count 0..12 (two-digit ordinals included), 0..2 claim templates, deletion flag, six pod-list orders and readiness masks (thorough: every subset) is executed against the real ReplicasManager / shard manager on a fake clientset loaded with claims for all ordinals of two StatefulSets and decoys with similar names. Shards must come in ordinal order with the right URL and readiness; a scale change must be exactly one update to the requested value (none if unchanged); deleted claims must be exactly those of removed ordinals when deletion is on and none otherwise; a StatefulSet in a rolling update is skipped; when the API server rejects the StatefulSet update (Conflict or server error) the count stays and no claim may be deleted; scripted lives of a StatefulSet over 4-11 cycles with time passing through the verif hook: while a rolling update is in progress (three shapes) it is never handed to the coordinator.",
+   text="Every combination of current and requested replica count 0..12 (two-digit ordinals included), 0..2 claim templates, deletion flag, six pod-list orders and readiness masks (thorough: every subset) is executed against the real ReplicasManager / shard manager on a fake clientset loaded with claims for all ordinals of two StatefulSets and decoys with similar names. Shards must come in ordinal order with the right URL and readiness; a scale change must be exactly one update to the requested value (none if unchanged); deleted claims must be exactly those of removed ordinals when deletion is on and none otherwise; a StatefulSet in a rolling update is skipped; when the API server rejects the StatefulSet update (Conflict or server error) the count stays and no claim may be deleted; scripted lives of a StatefulSet over 4-11 cycles with time passing through the verif hook: while a rolling update is in progress (three shapes) it is never handed to the coordinator, also in cycles whose StatefulSet listing fails.",
    note="Trusted: the client-go fake clientset as stand-in for the API server. Exhaustive within the stated bounds only; foreign pods, missing pods and nil replica counts are outside the property's quantifier."),
  "C20": dict(engine="E5 discovery/explorer", level="exploration", ref="DESIGN.md §5 C20",
    technique="runtime monitoring: per-target probe-lifecycle automaton over request events recorded at loopback targets, polling monitor on Explore.Get, POST monitor on a stub shard behind the real coordinator; race-detector pass",
-   text="The real Explore + scrape.Manager + TargetsDiscovery (and, in every second case, the real coordinator with a stub shard) run against 30-300 loopback HTTP targets with scripted latency and failing probes, with the real 5 s retry interval, while discovery updates remove and re-add targets inside the retry sleep and a reload keeps or drops a job. Every request at a target is recorded (arrival, departure, outcome, in-flight count) and judged per presence period: probed once asked for, single flight, retry not before the interval and within bounded time, silence after success, at most one probe after removal; Get reports healthy only after a success and with the payload's counts; nothing is assigned before a successful probe and the first assignment carries the kept count. Further cases: a job whose HTTP client cannot be built when its targets are first asked for and can after a later reload - every target must be probed and healthy within interval + 10 s of the repair; and a reload that changes a job's metric relabel rules and params before a new target is probed for the first time (estimate under the new rules, request with the new params).",
+   text="The real Explore + scrape.Manager + TargetsDiscovery (and, in every second case, the real coordinator with a stub shard) run against 30-300 loopback HTTP targets with scripted latency and failing probes, with the real 5 s retry interval, while discovery updates remove and re-add targets inside the retry sleep and a reload keeps or drops a job. Every request at a target is recorded (arrival, departure, outcome, in-flight count) and judged per presence period: probed once asked for, single flight, retry not before the interval and within bounded time, silence after success, at most one probe after removal; Get reports healthy only after a success and with the payload's counts; nothing is assigned before a successful probe and the first assignment carries the kept count. Further cases: a job whose HTTP client cannot be built when its targets are first asked for and can after a later reload - every target must be probed and healthy within interval + 10 s of the repair; and a reload that changes a job's metric relabel rules and params before a new target is probed for the first time (estimate under the new rules, request with the new params); and jobs with a configured param that some targets override through a relabel rule (every probe carries its own target's params and gets its own exposition's counts).",
    note="Trusted: server-side timestamps at the loopback targets; harness-side bracketing of when an update reached the explorer. Upper time bounds are bounded-progress restatements with workloads sized for >2x slack; lower bounds need no tolerance."),
 })
 
@@ -111,7 +111,7 @@ CHECKS.update({
    note=E2_NOTE),
  "C06": dict(engine="E2 closed loop", level="fault_enumeration", ref="DESIGN.md §5 C06",
    technique="fault injection at harness-owned boundaries of a closed loop, enumerated single-fault placements + sampled/enumerated pairs, bounded-recovery monitor",
-   text="On six fixed small base schedules every placement of one fault (11 variants x 8 cycles x 3 shards; quick: complete on four schedules, strided on the others) plus pairs (quick: 200 sampled; thorough: every pair on the three relief schedules and 3000 sampled triples) is executed; after the perturbed phase the loop must return to the C03 converged state within the bound and stay there. The restart fault is additionally applied to the REAL `kvass sidecar` process (assigned, killed, started twice more on the same volume, configuration pushed again as the coordinator would, no targets posted): the file given to Prometheus must list the resumed targets; 4/32 runs of the real-process loop (E7) have a sidecar killed and restarted, the coordinator killed and restarted, or a shard unreachable for five cycles in the middle. A further fault, inside the real sidecar: its Prometheus answers nothing for 1-2 cycles (reload and head-series query fail); and the converged state requires that the shard listing a target has handed it to its Prometheus. The fault space of small configurations is finite, which makes enumeration the right level.",
+   text="On six fixed small base schedules every placement of one fault (11 variants x 8 cycles x 3 shards; quick: complete on four schedules, strided on the others) plus pairs (quick: 200 sampled; thorough: every pair on the three relief schedules and 3000 sampled triples) is executed; after the perturbed phase the loop must return to the C03 converged state within the bound and stay there. The restart fault is additionally applied to the REAL `kvass sidecar` process (assigned, killed, started twice more on the same volume, configuration pushed again as the coordinator would, no targets posted): the file given to Prometheus must list the resumed targets; 4/32 runs of the real-process loop (E7) have a sidecar killed and restarted, the coordinator killed and restarted, or a shard unreachable for five cycles in the middle. A further fault, inside the real sidecar: its Prometheus answers nothing for 1-2 cycles (reload and head-series query fail); and the converged state requires that the shard listing a target has handed it to its Prometheus. A seventh base schedule has two of four targets answering 500 from the first cycle on (the clean-up rules count attempts; a dead target must not stop them). The fault space of small configurations is finite, which makes enumeration the right level.",
    note=E2_NOTE),
  "C19": dict(engine="E1 stub-cycle", level="exploration", ref="DESIGN.md §5 C19",
    technique="differential runtime monitoring: request traces of a replica run alone vs. next to a hostile replica (both orders), multi-cycle, real coordinator",
